@@ -33,6 +33,8 @@ pub use leader_state::ClusterMetadata;
 use leader_state::LeaderState;
 use learner_state::LearnerState;
 pub use read_lease::{ReadLease, init_clock, now_ms};
+#[cfg(feature = "verif-hooks")]
+pub use read_lease::verif_clock;
 use role_state::RaftRoleState;
 use serde::Deserialize;
 use serde::Deserializer;
@@ -575,6 +577,29 @@ impl<T: TypeConfig> RaftRole<T> {
         internal_event_tx: &mpsc::UnboundedSender<InternalEvent>,
     ) -> Result<()> {
         self.state_mut().handle_membership_applied(ctx, internal_event_tx).await
+    }
+}
+
+#[cfg(feature = "verif-hooks")]
+impl<T: TypeConfig> RaftRole<T> {
+    /// Verification hook: make the role's timer due now.
+    pub fn verif_expire_timer(&mut self) {
+        match self {
+            RaftRole::Follower(s) => s.timer.next_deadline = Instant::now(),
+            RaftRole::Candidate(s) => s.timer.next_deadline = Instant::now(),
+            RaftRole::Leader(s) => s.verif_expire_timer(),
+            RaftRole::Learner(_) => {}
+        }
+    }
+
+    /// Verification hook: read-only projection of leader-only queues
+    /// (pending_client_writes, pending_write_apply, pending_reads, pending_lease_reads,
+    /// pending_commit_actions, propose_buffer, linearizable_read_buffer).
+    pub fn verif_leader_queues(&self) -> Option<[usize; 7]> {
+        match self {
+            RaftRole::Leader(s) => Some(s.verif_queues()),
+            _ => None,
+        }
     }
 }
 
